@@ -98,116 +98,147 @@ Proof. rewrite (in_of_ec_ok (act pd0 c (TChar b :: l)) _ _ eq_refl (ec_clean_cha
 Lemma in_fin pd0 l : in_token ws (fin pd0 l false) = ((None, Some EEOF), fin pd0 l false).
 Proof. reflexivity. Qed.
 
-(* a state in which the stream reader below has failed *)
-Definition bad (s : rst) : Prop :=
-  p_poison (r_p s) = true /\ r_closed s = false /\ r_count s <> None /\ r_ecerr s = None.
-
-Lemma in_bad s : bad s -> in_token ws s = ((None, Some EPoison), s).
-Proof.
-  intros [Hp [Hc [Hn He]]]. destruct s as [p cl idp cnt ece]. cbn in Hp, Hc, Hn, He. subst.
-  destruct cnt as [c|]; [|congruence].
-  unfold in_token, ie_token, i_token, rc_token, p_token. cbn [r_count r_closed r_p].
-  rewrite Hp. cbn. reflexivity.
-Qed.
-
-Lemma in_trunc pd0 c : exists s', in_token ws (act pd0 c []) = ((None, Some EDecode), s') /\ bad s'.
-Proof. eexists. split; [reflexivity|]. unfold bad. cbn. repeat split; discriminate. Qed.
+Lemma in_trunc pd0 c : exists s', in_token ws (act pd0 c []) = ((None, Some EDecode), s').
+Proof. eexists. reflexivity. Qed.
 
 Ltac in_unfold :=
   unfold in_token, ie_token, i_token, rc_token, p_token, act, fin;
   cbn [r_ecerr r_count r_closed r_p p_poison p_toks p_depth r_idepth].
 
-Ltac bad_done := eexists; split; [reflexivity|]; split; [reflexivity|]; unfold bad; cbn; repeat split; discriminate.
-
 Lemma in_dirty pd0 c t l : clean ws t = false ->
-  exists ot s', in_token ws (act pd0 c (t :: l)) = ((ot, Some (dirty_err ws t l)), s') /\ ot = None /\ bad s'.
+  exists s', in_token ws (act pd0 c (t :: l)) = ((None, Some (dirty_err ws t l)), s').
 Proof.
-  intro Hc. exists None. destruct t as [n a|n|b|k b]; cbn [clean] in Hc.
-  - in_unfold. unfold sr_classify, dirty_err.
+  intro Hc. destruct t as [n a|n|b|k b]; cbn [clean] in Hc.
+  - assert (Hwe : ws_ends (pd0 + N.of_nat (S c)) (nlocal n) = false) by (apply ws_ends_nested; lia).
+    in_unfold. unfold sr_classify, dirty_err. rewrite Hwe.
     destruct (ws && bytes_eqb (nspace n) sv_ns_framing) eqn:Ef;
     destruct (bytes_eqb (nspace n) sv_ns_stream) eqn:Es;
     cbn [negb andb] in Hc; try discriminate Hc; cbn [negb].
-    + bad_done.
-    + bad_done.
+    + eexists; reflexivity.
+    + eexists; reflexivity.
     + destruct (bytes_eqb (nlocal n) s_error) eqn:Ee.
-      * bad_done.
-      * destruct (bytes_eqb (nlocal n) s_stream) eqn:Est; bad_done.
+      * eexists; reflexivity.
+      * destruct (bytes_eqb (nlocal n) s_stream) eqn:Est; eexists; reflexivity.
   - apply negb_false_iff in Hc.
     in_unfold. unfold sr_classify, dirty_err. rewrite Hc. cbn [negb].
-    destruct (bytes_eqb (nlocal n) s_stream) eqn:Est; bad_done.
+    destruct (bytes_eqb (nlocal n) s_stream) eqn:Est; eexists; reflexivity.
   - discriminate.
   - in_unfold. unfold sr_classify, dirty_err.
-    destruct k as [|[|k]]; bad_done.
+    destruct k as [|[|k]]; eexists; reflexivity.
 Qed.
 
-(* [Rin pd0 pre e s]: the reader is inside an element whose remaining readable
-   part (its own end tag included) is [pre] *)
-Inductive Rin (pd0 : N) : list token -> scan_end -> rst -> Prop :=
-| Rin_act c l pre e : scan ws c l = (pre, e) -> Rin pd0 pre e (act pd0 c l)
-| Rin_fin rest : Rin pd0 [] (SEComplete rest) (fin pd0 rest false)
-| Rin_bad e s : (forall rest, e <> SEComplete rest) -> bad s -> Rin pd0 [] e s.
+Lemma in_closed s : r_closed s = true -> exists s', in_token ws s = ((None, Some EEOF), s') /\ s' = s.
+Proof.
+  intro Hc. destruct s as [p cl idp cnt ece]. cbn in Hc. subst.
+  unfold in_token, ie_token. cbn [r_count]. destruct cnt as [c|].
+  - unfold i_token, rc_token. cbn. eexists. split; reflexivity.
+  - cbn. eexists. split; reflexivity.
+Qed.
+
+(* [Rw pd0 pre e s]: the reader handed to the waiter (earlyCloser over Inner) is
+   inside an element whose remaining readable part (its own end tag included) is [pre] *)
+Inductive Rw (pd0 : N) : list token -> scan_end -> rst -> Prop :=
+| Rw_act c l pre e : scan ws c l = (pre, e) -> Rw pd0 pre e (act pd0 c l)
+| Rw_fin rest cl : Rw pd0 [] (SEComplete rest) (fin pd0 rest cl)
+| Rw_stuck e x s : (forall rest, e <> SEComplete rest) -> r_ecerr s = Some x -> x <> EEOF -> Rw pd0 [] e s
+| Rw_eofd e s : (forall rest, e <> SEComplete rest) -> term_of ws e = EEOF ->
+    r_ecerr s = None -> r_closed s = true -> Rw pd0 [] e s.
+
+Lemma err_eof_dec (x : err) : {x = EEOF} + {x <> EEOF}.
+Proof. destruct x; (left; reflexivity) || (right; discriminate). Qed.
+
+(* after an error of the reader below: sticky unless it was an EOF, which closes *)
+Lemma wt_after_err s x s1 : r_ecerr s = None -> in_token ws s = ((None, Some x), s1) ->
+  exists s', wt_token ws s = ((None, Some x), s') /\
+    (x <> EEOF -> r_ecerr s' = Some x) /\
+    (x = EEOF -> r_ecerr s' = None /\ r_closed s' = true /\ r_p s' = r_p s1).
+Proof.
+  intros He E. unfold wt_token. rewrite He, E. cbn [snd].
+  destruct x; eexists; (split; [reflexivity|]); split; intros; try congruence; try (cbn; repeat split; reflexivity).
+Qed.
+
+Lemma wt_ok s t s1 : r_ecerr s = None -> in_token ws s = ((Some t, None), s1) -> wt_token ws s = ((Some t, None), s1).
+Proof. intros He E. unfold wt_token. rewrite He, E. reflexivity. Qed.
 
 (* one read: either a token of the element and the invariant goes on, or an
-   error; an EOF is given only at the element's own end tag or, for an element
-   that is not complete, when the construct met reads as the end of the stream *)
-Lemma Rin_step pd0 pre e s : Rin pd0 pre e s ->
-  exists r s', in_token ws s = (r, s') /\
-    ((exists t pre', pre = t :: pre' /\ r = ok_res t /\ Rin pd0 pre' e s') \/
-     (exists x, r = (None, Some x) /\ Rin pd0 [] e s' /\
-        (x = EEOF -> term_of ws e = EEOF /\ forall rest, e = SEComplete rest -> s' = fin pd0 rest false))).
+   error that is kept; an EOF is given only at the element's own end tag or, for
+   an element that is not complete, when the construct met reads as the end of
+   the stream *)
+Lemma Rw_step pd0 pre e s : Rw pd0 pre e s ->
+  exists r s', wt_token ws s = (r, s') /\
+    ((exists t pre', pre = t :: pre' /\ r = ok_res t /\ Rw pd0 pre' e s') \/
+     (exists x, r = (None, Some x) /\ Rw pd0 [] e s' /\
+        (x = EEOF -> term_of ws e = EEOF /\ forall rest, e = SEComplete rest -> r_p s' = mkp rest pd0 false))).
 Proof.
-  intro H. destruct H as [c l pre e Hs|rest|e s Hne Hb].
+  intro H. destruct H as [c l pre e Hs|rest cl|e x s Hne He Hx|e s Hne Ht He Hcl].
   - destruct l as [|t r]; cbn [scan] in Hs.
-    + inversion Hs; subst. destruct (in_trunc pd0 c) as [s' [E Hb]].
-      exists (None, Some EDecode), s'. split; [exact E|]. right. exists EDecode.
-      split; [reflexivity|]. split; [apply Rin_bad; [intros rest; discriminate|exact Hb]|]. intro; discriminate.
+    + inversion Hs; subst. destruct (in_trunc pd0 c) as [s1 E].
+      destruct (wt_after_err (act pd0 c []) EDecode s1 eq_refl E) as [s' [E' [H1 _]]].
+      exists (None, Some EDecode), s'. split; [exact E'|]. right. exists EDecode.
+      split; [reflexivity|]. split; [|intro; discriminate].
+      apply (Rw_stuck pd0 SETrunc EDecode); [intros rest; discriminate|apply H1; discriminate|discriminate].
     + destruct (clean ws t) eqn:Hc.
       * destruct t as [n a|n|b|k b].
         -- destruct (scan ws (S c) r) as [pre' e'] eqn:Hs'. inversion Hs; subst.
-           eexists. eexists. split; [apply in_clean_start; exact Hc|]. left.
-           eexists. eexists. split; [reflexivity|]. split; [reflexivity|]. apply Rin_act. exact Hs'.
+           eexists. eexists. split; [apply wt_ok; [reflexivity|apply in_clean_start; exact Hc]|]. left.
+           eexists. eexists. split; [reflexivity|]. split; [reflexivity|]. apply Rw_act. exact Hs'.
         -- destruct c as [|c'].
-           ++ inversion Hs; subst. eexists. eexists. split; [apply in_clean_end_last; exact Hc|]. right.
-              exists EEOF. split; [reflexivity|]. split; [apply Rin_fin|]. intros _. split; [reflexivity|].
+           ++ inversion Hs; subst.
+              destruct (wt_after_err (act pd0 0 (TEnd n :: r)) EEOF _ eq_refl (in_clean_end_last pd0 n r Hc)) as [s' [E' [_ H2]]].
+              destruct (H2 eq_refl) as [H3 [H4 H5]].
+              exists (None, Some EEOF), s'. split; [exact E'|]. right. exists EEOF. split; [reflexivity|].
+              assert (Hs' : s' = fin pd0 r true).
+              { unfold wt_token in E'. cbn [r_ecerr act] in E'. change (r_ecerr (act pd0 0 (TEnd n :: r))) with (@None err) in E'.
+                rewrite (in_clean_end_last pd0 n r Hc) in E'. cbn [snd] in E'. inversion E'. reflexivity. }
+              subst s'. split; [apply Rw_fin|]. intros _. split; [reflexivity|].
               intros rest Hr. inversion Hr; subst. reflexivity.
            ++ destruct (scan ws c' r) as [pre' e'] eqn:Hs'. inversion Hs; subst.
-              eexists. eexists. split; [apply in_clean_end_inner; exact Hc|]. left.
-              eexists. eexists. split; [reflexivity|]. split; [reflexivity|]. apply Rin_act. exact Hs'.
+              eexists. eexists. split; [apply wt_ok; [reflexivity|apply in_clean_end_inner; exact Hc]|]. left.
+              eexists. eexists. split; [reflexivity|]. split; [reflexivity|]. apply Rw_act. exact Hs'.
         -- destruct (scan ws c r) as [pre' e'] eqn:Hs'. inversion Hs; subst.
-           eexists. eexists. split; [apply in_clean_char|]. left.
-           eexists. eexists. split; [reflexivity|]. split; [reflexivity|]. apply Rin_act. exact Hs'.
+           eexists. eexists. split; [apply wt_ok; [reflexivity|apply in_clean_char]|]. left.
+           eexists. eexists. split; [reflexivity|]. split; [reflexivity|]. apply Rw_act. exact Hs'.
         -- cbn in Hc. discriminate.
-      * inversion Hs; subst. destruct (in_dirty pd0 c t r Hc) as [ot [s' [E [-> Hb]]]].
-        eexists. eexists. split; [exact E|]. right. exists (dirty_err ws t r).
-        split; [reflexivity|]. split; [apply Rin_bad; [intros rest; discriminate|exact Hb]|].
-        intro Heq. split; [exact Heq|]. intros rest Hr. discriminate.
-  - eexists. eexists. split; [apply in_fin|]. right. exists EEOF. split; [reflexivity|].
-    split; [apply Rin_fin|]. intros _. split; [reflexivity|]. intros r Hr. inversion Hr; subst. reflexivity.
-  - eexists. eexists. split; [apply in_bad; exact Hb|]. right. exists EPoison. split; [reflexivity|].
-    split; [apply Rin_bad; assumption|]. intro; discriminate.
+      * inversion Hs; subst. destruct (in_dirty pd0 c t r Hc) as [s1 E].
+        destruct (wt_after_err (act pd0 c (t :: r)) _ s1 eq_refl E) as [s' [E' [H1 H2]]].
+        eexists. eexists. split; [exact E'|]. right. exists (dirty_err ws t r). split; [reflexivity|].
+        destruct (err_eof_dec (dirty_err ws t r)) as [Heq|Hneq].
+        -- destruct (H2 Heq) as [H3 [H4 _]]. split.
+           ++ apply Rw_eofd; [intros rest; discriminate|exact Heq|exact H3|exact H4].
+           ++ intros _. split; [exact Heq|]. intros rest Hr. discriminate.
+        -- split; [apply (Rw_stuck pd0 _ (dirty_err ws t r)); [intros rest; discriminate|apply H1; exact Hneq|exact Hneq]|].
+           intro Heq. contradiction.
+  - exists (None, Some EEOF), (fin pd0 rest true). split; [reflexivity|]. right. exists EEOF. split; [reflexivity|].
+    split; [apply Rw_fin|]. intros _. split; [reflexivity|]. intros r Hr. inversion Hr; subst. reflexivity.
+  - exists (None, Some x), s. split; [unfold wt_token; rewrite He; reflexivity|]. right. exists x.
+    split; [reflexivity|]. split; [apply (Rw_stuck pd0 e x); assumption|]. intro; contradiction.
+  - destruct (in_closed s Hcl) as [s1 [E ->]].
+    destruct (wt_after_err s EEOF s He E) as [s' [E' [_ H2]]]. destruct (H2 eq_refl) as [H3 [H4 _]].
+    exists (None, Some EEOF), s'. split; [exact E'|]. right. exists EEOF. split; [reflexivity|].
+    split; [apply Rw_eofd; assumption|]. intros _. split; [exact Ht|]. intros rest Hr. exfalso. exact (Hne rest Hr).
 Qed.
 
-Definition Rin_any (pd0 : N) (e : scan_end) (k : nat) (s : rst) : Prop :=
-  exists pre, Rin pd0 pre e s /\ length pre <= k.
+Definition Rw_any (pd0 : N) (e : scan_end) (k : nat) (s : rst) : Prop :=
+  exists pre, Rw pd0 pre e s /\ length pre <= k.
 
-Lemma Rin_any_step pd0 e k s : Rin_any pd0 e k s ->
-  exists r s', in_token ws s = (r, s') /\ Rin_any pd0 e k s'.
+Lemma Rw_any_step pd0 e k s : Rw_any pd0 e k s ->
+  exists r s', wt_token ws s = (r, s') /\ Rw_any pd0 e k s'.
 Proof.
-  intros [pre [H Hk]]. destruct (Rin_step pd0 pre e s H) as [r [s' [E [[t [pre' [Hp [_ H']]]]|[x [_ [H' _]]]]]]];
+  intros [pre [H Hk]]. destruct (Rw_step pd0 pre e s H) as [r [s' [E [[t [pre' [Hp [_ H']]]]|[x [_ [H' _]]]]]]];
   exists r, s'; (split; [exact E|]); eexists; (split; [exact H'|]).
   - subst pre. cbn in Hk. lia.
   - cbn. lia.
 Qed.
 
 (* whatever the waiter reads, the invariant is kept *)
-Lemma run_w_inv pd0 n a' e k : forall h ph s seen, Rin_any pd0 e k s ->
-  exists s' seen', run_w ws n a' h ph s seen = (s', seen') /\ Rin_any pd0 e k s'.
+Lemma run_w_inv pd0 n a' e k : forall h ph s seen, Rw_any pd0 e k s ->
+  exists s' seen', run_w ws n a' h ph s seen = (s', seen') /\ Rw_any pd0 e k s'.
 Proof.
   induction h as [e0|kf IH|t h IH]; intros ph s seen HR.
   - eexists. eexists. split; [reflexivity|exact HR].
   - cbn [run_w]. unfold wr_token. destruct ph as [|[|ph]].
     + apply IH. exact HR.
-    + destruct (Rin_any_step pd0 e k s HR) as [r [s1 [E HR1]]]. rewrite E.
+    + destruct (Rw_any_step pd0 e k s HR) as [r [s1 [E HR1]]]. rewrite E.
       destruct r as [[tk|] [[]|]]; apply IH; exact HR1.
     + apply IH. exact HR.
   - cbn [run_w]. apply IH. exact HR.
@@ -215,12 +246,12 @@ Qed.
 
 (* discarding the rest: without error only at the element's end, and then the
    input stands right after it *)
-Lemma drain_in_spec pd0 e : forall fuel pre s, Rin pd0 pre e s -> length pre < fuel ->
+Lemma drain_in_spec pd0 e : forall fuel pre s, Rw pd0 pre e s -> length pre < fuel ->
   exists ret s', drain_in ws fuel s = (ret, s') /\
-    (ret = None -> term_of ws e = EEOF /\ forall rest, e = SEComplete rest -> s' = fin pd0 rest false).
+    (ret = None -> term_of ws e = EEOF /\ forall rest, e = SEComplete rest -> r_p s' = mkp rest pd0 false).
 Proof.
   induction fuel as [|f IH]; intros pre s HR Hl; [lia|].
-  cbn [drain_in]. destruct (Rin_step pd0 pre e s HR) as [r [s1 [E [[t [pre' [-> [-> HR1]]]]|[x [-> [HR1 Hx]]]]]]]; rewrite E.
+  cbn [drain_in]. destruct (Rw_step pd0 pre e s HR) as [r [s1 [E [[t [pre' [-> [-> HR1]]]]|[x [-> [HR1 Hx]]]]]]]; rewrite E.
   - cbn [snd ok_res]. apply (IH pre' s1 HR1). cbn in Hl. lia.
   - cbn [snd]. destruct x; try (eexists; eexists; split; [reflexivity|]; intro; discriminate).
     eexists. eexists. split; [reflexivity|]. intros _. apply Hx. reflexivity.
@@ -277,10 +308,10 @@ Lemma his_p_diverted c fuel tb hf pd n a l e0 pre e :
 Proof.
   intros Hc Hd Hs Hl. unfold his_p. rewrite (i_token_start (c_ws c) pd n a l Hc). cbv beta iota zeta.
   rewrite Hd.
-  assert (HR0 : Rin_any (c_ws c) pd e (length l) (act pd 0 l)).
-  { exists pre. split; [apply Rin_act; exact Hs|apply (scan_len (c_ws c) l 0 pre e Hs)]. }
+  assert (HR0 : Rw_any (c_ws c) pd e (length l) (act pd 0 l)).
+  { exists pre. split; [apply Rw_act; exact Hs|apply (scan_len (c_ws c) l 0 pre e Hs)]. }
   assert (Hrun : exists s2 seen, (if pe_live e0 then run_w (c_ws c) n (shown_attrs c n a) (pe_prog e0) 0 (act pd 0 l) []
-                                  else (act pd 0 l, [])) = (s2, seen) /\ Rin_any (c_ws c) pd e (length l) s2).
+                                  else (act pd 0 l, [])) = (s2, seen) /\ Rw_any (c_ws c) pd e (length l) s2).
   { destruct (pe_live e0).
     - apply (run_w_inv (c_ws c) pd n (shown_attrs c n a) e (length l)). exact HR0.
     - eexists. eexists. split; [reflexivity|exact HR0]. }
@@ -290,7 +321,7 @@ Proof.
   eexists. eexists. split; [reflexivity|]. cbn [d_name d_attrs d_id d_taken d_ret].
   repeat (split; [reflexivity|]).
   intro Hr. destruct (H3 Hr) as [Ht Hrest]. split; [exact Ht|].
-  intros rest He. rewrite (Hrest rest He). reflexivity.
+  intros rest He. exact (Hrest rest He).
 Qed.
 
 (* ---- Serve with outstanding requests ---- *)
